@@ -9,7 +9,8 @@
           msg |-> the documented wording of a shape-mismatch message (compared as drift only)]
    The dump is replayed into real FormulaGrader / NumericalGrader / MatrixGrader objects.                         *)
 EXTENDS Comparers
-CONSTANTS Part, Thorough
+CONSTANTS Part, Thorough, Flaws          \* Flaws \subseteq Comparers!FlawNames: {} = the current code
+ASSUME Flaws \subseteq FlawNames
 VARIABLES c, out
 
 DefaultCfg == [equals |-> One, proportional |-> <<1, 2>>, offset |-> None, linear |-> None]
@@ -22,11 +23,14 @@ UnitVec(n, j, z) == TLCEval([k \in 1..n |-> IF k = j THEN z ELSE GZ])
 
 (* ------------------------------------------------------------------ congruence *)
 CongSeeds == {[kind |-> "seed", t |-> t, m |-> m, den |-> d] :
-                t \in (IF Thorough THEN -3..4 ELSE -2..3), m \in (IF Thorough THEN {2, 3, 4, 5, 7, -3, -4} ELSE {2, 3, 5, -3}), d \in {1, 2}}
+                t \in (IF Thorough THEN -3..4 ELSE -2..3), m \in (IF Thorough THEN {2, 3, 4, 5, 7, -3, -4} ELSE {2, 3, 5, -3}),
+                d \in {1, 2} \cup (IF Thorough THEN {5} ELSE {})}
 CongCases(s) == {x \in [kind : {"cong"}, t : {s.t}, m : {s.m}, den : {s.den}, k : (IF Thorough THEN -3..3 ELSE {-2, 0, 1}),
                         step : {-1, 0, 1}, form : {"plain", "cplx0", "isq", "imag"}, jit : {-1, 0, 1},
                         tol : {"abs", "pct", "zero"}, grader : {"formula", "numerical"}] :
-                   x.jit # 0 => (x.tol = "abs" /\ x.form = "plain" /\ x.step = 0)}
+                   /\ x.jit # 0 => (x.tol = "abs" /\ x.form = "plain" /\ x.step = 0)
+                   \* radius 0 (tolerance 0, or a percentage of the reduced target 0): exact binary arithmetic only
+                   /\ (x.tol = "zero" \/ (x.tol = "pct" /\ x.t % Abs(x.m) = 0)) => IsPow2(x.den)}
 CongX(x) == x.t + x.k * x.m + x.step
 BuildCong(x) == Typed(Simple("cong", x.tol, x.jit, << <<ScQ(G(x.t), x.den), ScQ(G(x.m), x.den)>> >>,
                              << ScQ(<<CongX(x), IF x.form = "imag" THEN 1 ELSE 0>>, x.den) >>), x.form)
@@ -206,7 +210,7 @@ Init == c \in Seeds /\ out = "seed"
 Next == /\ c.kind = "seed"
         /\ c' \in CasesFor(c)
         /\ out' = LET k == Build(c')   al == Allowed(k)
-                  IN [case |-> k, allowed |-> al, rel |-> RelationOf(k, al), impl |-> ImplOutcome(k), why |-> DeviationClass(k),
+                  IN [case |-> k, allowed |-> al, rel |-> RelationOf(k, al), impl |-> ImplOutcome(k, Flaws), why |-> DeviationClass(k, Flaws),
                       msg |-> IF WrongShape(k) THEN MessageModel(k.policy, ExpShape(k), k.S[1].shape)
                               ELSE [form |-> "empty", exp |-> <<>>, got |-> <<>>, same |-> FALSE]]
 IsCase == c.kind # "seed"
@@ -228,10 +232,13 @@ LawGenerator == IsCase =>
     [] c.kind = "entry" -> Cardinality(MatchingEntries([s \in 1..NSamples(K) |-> K.P[s][1]], K.S)) = Len(K.S[1].ent) - Cardinality(c.wrong)
     [] c.kind = "linear" -> c.nl = "none" => LawGeneratedRelations(LinE(K), K.P[1][1].den, LinS(K), K.S[1].den, c.a.z, c.a.d, c.b.z)
     [] OTHER -> TRUE
-\* the implementation-shaped model leaves the documented classes only in the circumscribed situations of DeviationClass ...
+\* the implementation-shaped model (current code for Flaws = {}) leaves the documented classes only in the circumscribed
+\* situations of DeviationClass ...
 LawImplDeviatesOnlyThere_ == IsCase => out.impl \in out.allowed \/ out.why # "none"
-\* ... and there it really does: NOT an invariant -- checked by the *_impl.cfg instances, whose counterexamples are the
-\* design-level defects (TLC is expected to report a violation)
+\* ... and there it really does: NOT an invariant.  The *_flaw_*.cfg instances switch one repaired code block back to its
+\* original form (Flaws = {"Original..."}) and check ImplRefines_: TLC must report a violation, the counterexample is the
+\* design-level defect that was repaired (vacuity guard of the refinement check).  MC_Comparers_eigen_impl.cfg does the
+\* same for the current code, where the eigenvalue-0 deviation is still present.
 ImplRefines_ == IsCase => out.impl \in out.allowed
 LawKind == IsCase =>
   CASE c.kind = "cong" -> LawCongruence(K.S[1], K.P[1][1], K.P[1][2])
